@@ -110,6 +110,11 @@ def gen_case(seed, tier):
                "cMaximumDrop": -round(rng.uniform(300, 2500), 1),
                "cMinimumAltitude": round(alt0 - rng.uniform(300, 2500), 1)}
     rec_step = range_ft / gen.pick(rng, [3, 5, 7.3, 10, 20])
+    rng_f = rng_for(seed, "fine_record")                # separate stream: the other draws of a seed stay what they were
+    if rng_f.random() < 0.15:
+        # record step below (or around) the integration step (half the configured maximum): several record distances are
+        # passed within one step and the loop bound range + min(calc_step, record_step) is closer than one step's advance
+        rec_step = (step / 2.0) * rng_f.uniform(0.12, 1.3)
     req = {"range": gen.gen_distance_ft(rng, round(range_ft, 2), ("Foot", "Yard", "Meter")),
            "step": gen.gen_distance_ft(rng, round(max(rec_step, 0.5), 3), ("Foot", "Yard", "Meter")),
            "extra": rng.random() < 0.5,
